@@ -3334,7 +3334,20 @@ impl<Front: SocketHandler> ConnectionH2<Front> {
                 "IoSlice refs must be cleared before consume"
             );
             debug.push(DebugEvent::SocketIO(debug_site, global_stream_id, size));
+            let storage_end_before = kawa.storage.end;
             kawa.consume(size);
+            // `Kawa::consume` may shift its buffer to the left and then re-bases
+            // only the stores in `out`. The H2 converter stops in the middle of
+            // the block list on a flow-control stall or a scheduler yield, so
+            // blocks can still be queued here: their slices point into the same
+            // buffer and must follow the shift, or the bytes sent next come from
+            // further right in the buffer (body bytes reordered on the wire).
+            let shifted = storage_end_before - kawa.storage.end;
+            if shifted > 0 {
+                for block in kawa.blocks.iter_mut() {
+                    block.push_left(shifted as u32);
+                }
+            }
             position.count_bytes_out_counter(size);
             position.count_bytes_out(metrics, size);
             if let Some(counter) = bytes_written.as_deref_mut() {
